@@ -89,6 +89,9 @@ def run_shard(shard, acc):
                 toggles(bs, acc, shard['depth'])
     finally:
         core.set_options()
+        if _FWCTX[0] is not None:
+            _FWCTX[0].close()
+            _FWCTX[0] = None
 
 
 PRE = ["import bitstring", "bitstring.options.lsb0 = True"]
@@ -165,10 +168,23 @@ def P(L):
     return list(dict.fromkeys([-L - 1, -L, -1, 0, 1, L // 2, L - 1, L, L + 1]))
 
 
+_FWCTX = [None]
+
+
+def _fw(bits):
+    """Bits(filename=..., length=len(bits)) on a 3-byte file that goes on with 1s (same helper as the C03 operand FW)."""
+    bs = core.import_bitstring()
+    if _FWCTX[0] is None:
+        _FWCTX[0] = routes.Ctx()
+    data = bits + '1' * (24 - len(bits))
+    lsb0 = bs.options.lsb0
+    return bs.Bits(filename=_FWCTX[0].file_for(int(data, 2).to_bytes(3, 'big')), length=len(bits))
+
+
 def apply_mut(acc, bs, cls, d, op, src, alts, group=''):
     """Run a mutator under lsb0 on a fresh object; alts = mirrored accept set [(obs_pattern, new_bits_in_stored_order)]."""
     s = getattr(bs, cls)(bin=d)
-    ns = {'s': s, 'bitstring': bs}
+    ns = {'s': s, 'bitstring': bs, 'FW': _fw}
     from ..bfs import run_src
     got = run_src(ns, src)
     post = ns['s'].bin
@@ -186,7 +202,8 @@ def apply_mut(acc, bs, cls, d, op, src, alts, group=''):
             compile(src, '<e>', 'eval')
         except SyntaxError:
             is_expr = False
-        lines = PRE + [f"s = {mk(cls, d)}", "try:", f"    r = ('ok', {src})" if is_expr else f"    {src}; r = ('ok', None)", "except Exception:", "    r = ('exc', None)",
+        from .c03 import FW_SRC
+        lines = PRE + ([FW_SRC] if 'FW(' in src else []) + [f"s = {mk(cls, d)}", "try:", f"    r = ('ok', {src})" if is_expr else f"    {src}; r = ('ok', None)", "except Exception:", "    r = ('exc', None)",
                        f"assert (r, s.bin) in {[((p[0], p[1] if p[0] == 'ok' else None), nb) for p, nb in alts]!r}, (r, s.bin)"]
         acc.violation(op, kind, dict(cls=cls, bits=d, event=src, group=group), '\n'.join(lines), [list(map(core._j, a)) for a in alts], [core._j(got), post])
     acc.outcome((op, alts[0][0][0], post[:12]))
@@ -202,7 +219,8 @@ def mutators(bs, acc, d):
     rd = R(d)
     cls = ('BitArray', 'BitStream')[L % 2]
     acc.state((cls, d))
-    ops = [('', "''"), ('0', "'0b0'"), ('1', "bitstring.Bits(bin='1')"), ('01', "'0b01'"), ('110', "bitstring.BitArray(bin='110')")]
+    ops = [('', "''"), ('0', "'0b0'"), ('1', "bitstring.Bits(bin='1')"), ('01', "'0b01'"), ('110', "bitstring.BitArray(bin='110')"),
+           ('10', "FW('10')")]       # a length-limited window onto a longer file as the operand (see C03)
     for b, src in ops:
         rb = R(b)
         apply_mut(acc, bs, cls, d, 'append', f"s.append({src})", mir(M.append(rd, rb)))
@@ -219,7 +237,7 @@ def mutators(bs, acc, d):
         for b in sl:
             for c in (None, 1, -1, 2, -2, 3):
                 apply_mut(acc, bs, cls, d, 'delslice', f"del s[{fmt_slice(a, b, c)}]", mir(M.delslice(rd, a, b, c)), group='neg' if (c or 1) < 0 else 'pos')
-                for kind, v, vsrc in (('bits', '', "''"), ('bits', '1', "'0b1'"), ('bits', '01', "bitstring.Bits(bin='01')"), ('bits', '110', "'0b110'"), ('int', 0, '0'), ('int', 1, '1'), ('int', 2, '2')):
+                for kind, v, vsrc in (('bits', '', "''"), ('bits', '1', "'0b1'"), ('bits', '01', "bitstring.Bits(bin='01')"), ('bits', '110', "'0b110'"), ('bits', '10', "FW('10')"), ('int', 0, '0'), ('int', 1, '1'), ('int', 2, '2')):
                     if kind == 'int' and c == -1:
                         continue      # UNSPECIFIED: integer assigned to a reversed slice - no encoding order is defined (see C03)
                     if kind == 'int' and c in (None, 1):
